@@ -341,6 +341,14 @@ pub fn process<I: BufRead, O: Write>(
                     Some(string) => {
                         in_multiline_comments = false;
                         remaining = string;
+                        // A comment separates the tokens around it like a space does
+                        if let (Some(a), Some(b)) =
+                            (uncommented_buf.chars().last(), remaining.chars().next())
+                        {
+                            if !a.is_whitespace() && !b.is_whitespace() {
+                                uncommented_buf.push(' ');
+                            }
+                        }
                         if !remaining.is_empty() {
                             if remaining.eq("\n") {
                                 remaining = "";
